@@ -2302,7 +2302,8 @@ impl<'a> Socket<'a> {
 
     fn seq_to_transmit(&self, cx: &mut Context) -> bool {
         // Fast retransmits should always send, even if later congestion checks would disallow
-        if self.pending_fast_retransmit && !self.tx_buffer.is_empty() {
+        // (but never into a closed remote window).
+        if self.pending_fast_retransmit && !self.tx_buffer.is_empty() && self.remote_win_len > 0 {
             return true;
         }
 
@@ -2626,8 +2627,12 @@ impl<'a> Socket<'a> {
                 let local_mss = cx.ip_mtu() - ip_repr.header_len() - TCP_HEADER_LEN;
                 let effective_mss = local_mss.min(self.remote_mss).saturating_sub(options_len);
 
-                let offset = if self.pending_fast_retransmit {
-                    let size = effective_mss.min(self.tx_buffer.len());
+                let offset = if self.pending_fast_retransmit && self.remote_win_len > 0 {
+                    // The retransmitted segment starts at SND.UNA, so all of the remote
+                    // window is available to it, but no more than that.
+                    let size = effective_mss
+                        .min(self.tx_buffer.len())
+                        .min(self.remote_win_len);
                     repr.seq_number = self.local_seq_no;
                     repr.payload = self.tx_buffer.get_allocated(0, size);
 
